@@ -324,6 +324,10 @@ def run(ck, factory=make):
 def replay(ck, data):
   c = data['case']
   has_en, n, hist = c['hasEn'], c['n'], c['hist']
+  for h in (0, 1):               # same construction prelude as run(): a one-requester instance of each class first
+    try: make(h, 1)
+    except Exception as e: print(f'{VARIANT[h]}(1): rejected ({type(e).__name__})')
+    else: print(f'{VARIANT[h]}(1): built')
   model = parse_trace(ck.drv('arb').batch([model_line(has_en, n, hist)])[0])
   impl = run_real(has_en, n, hist)
   orc = Oracle(has_en, n)
